@@ -61,9 +61,9 @@ impl Qcow2IoTokio {
         let mut file = self.file.lock().await;
 
         file.seek(SeekFrom::Start(offset)).await?;
-        let res = file.write(buf).await?;
-
-        assert!(res == buf.len());
+        // tokio caps a single write() at its internal buffer size (2 MiB):
+        // write_all() loops until the whole buffer is written
+        file.write_all(buf).await?;
 
         Ok(())
     }
@@ -75,9 +75,19 @@ impl Qcow2IoOps for Qcow2IoTokio {
         let mut file = self.file.lock().await;
 
         file.seek(SeekFrom::Start(offset)).await?;
-        let res = file.read(buf).await?;
+        // a single read() returns at most tokio's internal buffer size
+        // (2 MiB): loop until the buffer is full or the end of file is hit,
+        // so that a short count means end of file like on the other backends
+        let mut done = 0;
+        while done < buf.len() {
+            let res = file.read(&mut buf[done..]).await?;
+            if res == 0 {
+                break;
+            }
+            done += res;
+        }
 
-        Ok(res)
+        Ok(done)
     }
 
     async fn write_from(&self, offset: u64, buf: &[u8]) -> Qcow2Result<()> {
